@@ -215,6 +215,29 @@ def run_item(item):
         res["samples"] = [{"loader": "DeepONetDataLoader", "layout": layout, "Nb": nb, "Nt": nt}]
         return res
 
+    # ---- the user's containers: a LIST of Points handed to a shuffling loader is left as it was, and a second loader built
+    #      from the same list afterwards still delivers the user's rows in the user's order
+    for N in (3, 5):
+        for bs in (2, 5):
+            cfg = "user-list N=%d bs=%d" % (N, bs)
+            res["states"].append(cfg)
+            ids = torch.arange(N, dtype=torch.float32).reshape(N, 1)
+            user = [Points(ids.clone(), Space({"x": 1})), Points(10.0 + ids.clone(), Space({"u": 1}))]
+            kept = [pp.as_tensor.clone() for pp in user]
+            with Seam({0: "REV"}):
+                ld1 = PointsDataLoader(user, batch_size=bs, shuffle=True)
+            ld2 = PointsDataLoader(user, batch_size=bs, shuffle=False)
+            res["evals"] += 1
+            res["transitions"] += 2
+            if len(user) != 2 or any(not torch.equal(pp.as_tensor, kk) for pp, kk in zip(user, kept)):
+                viol("C16|points|user-list-modified", "%s: after building a shuffling loader the user's list holds %s" % (cfg, [pp.as_tensor.reshape(-1).tolist() for pp in user]))
+                continue
+            first = next(iter(ld2))
+            if not torch.equal(first[0].as_tensor.reshape(-1), ids.reshape(-1)[:bs]):
+                viol("C16|points|second-loader-order", "%s: an unshuffled loader built from the same list afterwards starts with rows %s" % (cfg, first[0].as_tensor.reshape(-1).tolist()))
+            else:
+                res["outcomes"].append(cfg)
+
     # ---- DataCondition(use_full_dataset=True) aggregates every batch exactly once ----------
     #      the same for the other conditions with a full-data-set mode: HPM_EquationLoss_at_DataPoints (per-batch value =
     #      mean squared residual) and HPCMCondition (per-batch value = |state - target - correction|)
